@@ -771,6 +771,8 @@ class StmtMixin:
             # iteration over a dict/set snapshot: _pos(key) is the position of a key in the iteration order
             sq['_pos'] = FuncVal('builtin', qual='zfunc.pos', py=(self.snapshot_idx[seqval.t[1].get_id()], KInt))
         outs = []
+        if seqval is not None:
+            st.env['_seq%d' % idx] = seqval     # the iterated list, for ghost_out witnesses of the enclosing contract
         entry = st.copy()
         zero = z3.IntVal(0)
         self.check_inv(st, fr, inv, idx, 'entry', entry, dict(sq, _i=ops.SI(zero), _n=ops.SI(n)))
